@@ -27,6 +27,8 @@ def gen_cases(seed, tier):
     import docgen
     cases = PC.stream(seed, tier)
     # pylatexenc-2 verbatim parsers with arguments in front of the verbatim text (real code only)
+    import random
+    cases += PC.state_stream(random.Random(seed + 77), 400 if tier == 'quick' else 6000)
     for s in docgen.exhaustive(docgen.SYM_LEGACYVERB, 3 if tier == 'quick' else 4):
         for tol in (False, True):
             cases.append(PC.mk_case('legacyverb', s, tol, 'legacyverb'))
@@ -92,7 +94,7 @@ def _check_node(n, s, strict, path):
         if n.chars != s[n.pos:n.pos_end]:
             return ('chars-text-differs-from-slice', {'node': treedump.dump(n), 'slice': s[n.pos:n.pos_end]})
     if k == '#':
-        if '%' + n.comment + (n.comment_post_space or '') != s[n.pos:n.pos_end]:
+        if s[n.pos:n.pos + 1] + n.comment + (n.comment_post_space or '') != s[n.pos:n.pos_end] or n.pos_end <= n.pos:
             return ('comment-text-differs-from-slice', {'node': treedump.dump(n), 'slice': s[n.pos:n.pos_end]})
     if k in ('G', '$') and strict and n.nodelist is not None:
         dl, dr = n.delimiters
